@@ -89,14 +89,14 @@ def factory(ns, **kw):
                             if Sobj is None or Sobj.kind != 'sign':
                                 structural.append('the stored value is the hex of an ed25519 signature made by the library')
                                 continue
-                            meta_now = canon_of(it, a['meta'])
+                            meta_now = canon_of(it, root.split(a['meta']))
                             obs.append(oblige(eng, "each signature is over the canonical bytes of that artifact's own metadata, made with the given key",
                                               z3.Not(z3.And(bytes_eq(it, Sobj.msg, meta_now), bytes_eq(it, Sobj.sk.raw, mk_hex_bytes(it, key)))), mk))
                             pub = public_of(it, Sobj.sk)
                             from pysym.models import hex_view
                             obs.append(oblige(eng, "the entry is filed under the signer's public key", z3.Not(val_eq(it, root, pubhex, hex_view(it, pub.raw))), mk))
                             # ---- client side: wrap the artifact's metadata, attach the entry, verify through a pkg_mgr delegation
-                            wrapped = run_call(it, S.wrap_as_signable, [a['meta']])
+                            wrapped = run_call(it, S.wrap_as_signable, [root.split(a['meta'])])
                             if is_ret(wrapped):
                                 env = wrapped[1]
                                 env['signatures'] = {pubhex: sd}
@@ -214,10 +214,10 @@ def judge(case, obs):
 
 def units(tier):
     q = tier == 'quick'
-    return [Unit('sign_all_in_repodata', factory('rp', A=1 if q else 2, B=1, wrong_kinds=True), expect=('signed', 'client verifies', 'fails:ValueError'), max_witnesses=150)]
+    return [Unit('sign_all_in_repodata', factory('rp', A=1 if q else 2, B=1, wrong_kinds=True, meta_kinds='conda' if q else True), expect=('signed', 'client verifies', 'fails:ValueError'), max_witnesses=150)]
 
 
-BOUNDS = dict(repodata='packages with <= 1 (quick) / 2 (thorough) artifacts and packages.conda with <= 1 artifact, free names of <= 3 characters (distinct across sections), each metadata a JSON object with a free integer field; either section present, absent, a list or null; optional stale signatures section with one entry; optional extra top-level field; file content canonical JSON of that document, non-JSON bytes, or a missing file',
+BOUNDS = dict(repodata='packages with <= 1 (quick) / 2 (thorough) artifacts and packages.conda with <= 1 artifact, free names of <= 3 characters (distinct across sections), each metadata a JSON object with a free integer field, or a bare boolean / integer / string / null / array; either section present, absent, a list or null; optional stale signatures section with one entry under a free name whose key and signature strings are free (so it may name a listed artifact and the signer own key); optional extra top-level field; file content canonical JSON of that document, non-JSON bytes, or a missing file',
               key='free string <= 66 characters')
 OUTSIDE = 'more artifacts per section; artifact names occurring in both sections (excluded by the statement); non-canonical but valid JSON input files (equal after json.load under A3)'
 ASSUMPTIONS = ['A3 for the file round trip (json.load of canonical bytes gives the value back)', 'Sign / Pub axioms as in C09; replays use the real ed25519 implementation and real files']
